@@ -1,8 +1,8 @@
 """C05 - references to steps/needs/matrix/inputs/secrets/jobs resolve by scope.
 
-E: TLC checks Scope.tla on every workflow shape of five bounded universes (step ids x positions;
+E: TLC checks Scope.tla on every workflow shape of six bounded universes (step ids x positions;
    needs graphs x outputs x job kinds; matrices rows/include/exclude literal or expression; workflow_call /
-   workflow_dispatch inputs and secrets; runner/shell configurations): the visitor protocol
+   workflow_dispatch inputs and secrets; job-level and strategy.matrix sites of normal and call jobs): the visitor protocol
    WorkflowPre; (JobPre; Step*; JobPost)* in EVERY job order; WorkflowPost, with the scope variables
    of RuleExpression updated where the code updates them, hands to the expression checker at every
    site exactly the environment the declarative scope rules (DESIGN A.2) demand (ScopeAgrees), all
@@ -26,7 +26,9 @@ QUICK = [('Scope_steps_q.cfg', 'step ids: <=2 jobs x <=2 steps, ids none/a/expre
          ('Scope_needs_q.cfg', 'needs: 3 jobs, every needs graph without self loops; jobs.* at workflow_call outputs'),
          ('Scope_needs2.cfg', 'needs: <=2 jobs normal/reusable-workflow call, dangling needs'),
          ('Scope_matrix_q.cfg', 'matrix: rows x include (<=1 element) x exclude, second job with literal rows'),
-         ('Scope_inputs.cfg', 'inputs/secrets: workflow_call x workflow_dispatch inputs, secrets absent/empty/declared')]
+         ('Scope_inputs.cfg', 'inputs/secrets: workflow_call x workflow_dispatch inputs, secrets absent/empty/declared'),
+         ('Scope_jobsites.cfg', 'job-level sites: values inside strategy.matrix, runs-on, container, services, concurrency, '
+                                'timeout-minutes, continue-on-error, with/secrets of a call job; <=2 jobs normal/call with matrix')]
 THOROUGH = [('Scope_steps_t.cfg', 'step ids: <=2 jobs x <=3 steps, ids none/a/expression'),
             ('Scope_steps3.cfg', QUICK[1][1]),
             ('Scope_steps3j.cfg', 'step ids: <=3 jobs x <=2 steps, ids none/a/expression'),
@@ -34,7 +36,8 @@ THOROUGH = [('Scope_steps_t.cfg', 'step ids: <=2 jobs x <=3 steps, ids none/a/ex
             ('Scope_needs_t.cfg', 'needs: 3 jobs normal/call, every needs graph x declared outputs'),
             ('Scope_needs2.cfg', QUICK[3][1]),
             ('Scope_matrix_t.cfg', 'matrix: rows x include (<=2 elements) x exclude, second job with literal rows'),
-            ('Scope_inputs.cfg', QUICK[5][1])]
+            ('Scope_inputs.cfg', QUICK[5][1]),
+            ('Scope_jobsites.cfg', QUICK[6][1])]
 
 
 def read_vectors(path):
